@@ -23,9 +23,11 @@ import (
 var progress int64 // unix nano of the last finished implementation call batch
 var current atomic.Value
 
+type curBox struct{ v interface{} }
+
 func touch(what interface{}) {
 	atomic.StoreInt64(&progress, time.Now().UnixNano())
-	current.Store(what)
+	current.Store(curBox{what})
 }
 
 func watchdog(cfg *lib.Config) {
@@ -34,7 +36,7 @@ func watchdog(cfg *lib.Config) {
 		if time.Since(time.Unix(0, atomic.LoadInt64(&progress))) > 40*time.Second {
 			res := lib.NewResult("C16")
 			res.Violate(lib.Violation{Clause: "terminates", What: "an implementation call did not return within 40 s",
-				Input: current.Load(), Tags: []string{"timeout"}})
+				Input: current.Load().(curBox).v, Tags: []string{"timeout"}})
 			res.Write(cfg)
 			os.Exit(0)
 		}
